@@ -202,6 +202,8 @@ def build(case, parallel=(), perm=None):
         params = {'spec': spec, 'name': spec['name']}
         if perm is not None:
             params['perm'] = derive(perm, spec['name'])
+        if spec['name'] in parallel:
+            params['_parallel'] = True
         path = spec['path']
         up = ('..',) * (len(path) - 1)
         if spec.get('cls') == 'FStep':
@@ -269,13 +271,13 @@ def budget_for(case, units):
     return 4000 * (units + 20) * n
 
 
-def execute(case, parallel=(), perm=None, emit_step=None):
+def execute(case, parallel=(), perm=None, emit_step=None, sim_seed=None, tail_ops=()):
     import copy
     opts = case['opts']
     unit = opts['unit']
     t0 = tval(opts.get('t0', 0), unit)
     run = harness.Run()
-    harness.begin_run(t0, seed=case.get('seed', 0))
+    harness.begin_run(t0, seed=case.get('seed', 0), simmp_seed=sim_seed)
     try:
         processes, steps, topology, flow = build(case, parallel, perm)
         run.extra['deriver_order_processes'] = _deriver_order(processes, flow)
@@ -298,7 +300,17 @@ def execute(case, parallel=(), perm=None, emit_step=None):
             harness.drive(run, eng, case['ops'], unit,
                           lambda op: budget_for(case, op[1] if len(op) > 1 else 1),
                           prec=opts.get('precision'))
-            if run.exc is None:
+            if run.exc is None and tail_ops:
+                run.extra['final_state'] = REC.snapshot()
+                harness.drive(run, eng, [list(o) for o in tail_ops], unit, lambda op: 2000000,
+                              first_index=len(case['ops']))
+                if run.extra.get('drop'):
+                    eng = None
+                    processes = steps = None
+                    harness.drop_engine(run)
+            elif run.exc is None:
+                run.extra['final_state'] = REC.snapshot()
+            if run.exc is None and eng is not None:
                 try:
                     run.extra['front'] = {
                         path: (f['time'], bool(f['update']))
